@@ -12,5 +12,5 @@ def M(n, d, tier="quick", **kw): return H("c08_modules::" + n, desc=d, tier=tier
 HARNESSES = [
     M("c08_is_interesting", "is_interesting predicate"), M("c08_is_contained_in", "is_contained_in predicate"),
     M("c08_raw_module_replace_basename", "module record, basename replaced by SONAME (string handling: > 15 min)", "thorough", est_gb=10, mem_gb=30), M("c08_raw_module_append_soname", "module record, SONAME appended", "thorough", est_gb=10, mem_gb=30),
-    M("c08_write_list", "module list: listed / skipped / caller-supplied", est_gb=8), M("c08_write_suppressed", "target mapping inside a caller mapping is suppressed", est_gb=8),
+    M("c08_write_list", "module list: listed / skipped / caller-supplied (does not finish: 16 GB)", "thorough", est_gb=16, mem_gb=34), M("c08_write_suppressed", "target mapping inside a caller mapping is suppressed (does not finish: 16 GB)", "thorough", est_gb=16, mem_gb=34),
 ]
